@@ -156,3 +156,18 @@ Definition judge_history := judge no_extra.
 Definition judge_history_auth := judge extra_auth.
 Definition judge_history_window := judge extra_window.
 Definition judge_history_intact := judge extra_intact.
+
+(* C12 also has direct patch-list cases: ApplyPatches on Go values with deep snapshots of the
+   document and of every patch value taken around the call *)
+Inductive c12case :=
+| C12H (c : hcase)
+| C12P (doc : obj) (ps : list json) (impl : option obj) (intact : bool).
+
+Definition judge_c12 (c : c12case) : verdict :=
+  match c with
+  | C12H h => judge_history_intact h
+  | C12P doc ps impl intact =>
+      if negb intact then SpecFail 8                       (* an input was modified, or an error came with a document *)
+      else if PatchCases.opt_obj_equiv (apply_patches doc ps) impl then Pass
+      else Mismatch 9
+  end.
